@@ -525,6 +525,19 @@ def build():
         return arm("Opt"), arm("Unknown")
     all_opt, all_unk = eq_arms("AllRecordData")
     _, zone_unk = eq_arms("ZoneRecordData")
+    # Opt::push_raw_option: does the length check count the four header octets of the option?
+    optsrc = strip_comments(read("src/base/opt/mod.rs"))
+    pro = fn_body(optsrc, "push_raw_option", after="impl<Octs: Composer> Opt<Octs>")
+    chk = one(r"LongOptData::check_len\((.*?)\)\?;", pro, "Opt::push_raw_option length check")
+    arg = " ".join(chk.group(1).split())
+    if arg == "self.octets .as_ref() .len() .saturating_add(usize::from(option_len)),":
+        push_hdr = False
+    elif arg == "self.octets .as_ref() .len() .saturating_add(usize::from( OptionCode::COMPOSE_LEN + u16::COMPOSE_LEN, )) .saturating_add(usize::from(option_len)),":
+        push_hdr = True
+    else:
+        raise GenError("Opt::push_raw_option: unrecognised length check %r" % arg)
+    one(r"code\.compose\(&mut self\.octets\)\?;\s*option_len\.compose\(&mut self\.octets\)\?;\s*op\(&mut self\.octets\)\?;", pro, "Opt::push_raw_option framing")
+    one(r"if len > usize::from\(u16::MAX\) \{\s*Err\(Self\(\(\)\)\)", fn_body(optsrc, "check_len", after="impl LongOptData"), "LongOptData::check_len bound")
     rows.sort()
     parse_rows.sort()
 
@@ -543,6 +556,7 @@ def build():
     L.append(("all_eq_has_opt_arm", "bool", b(all_opt)))
     L.append(("all_eq_has_unknown_arm", "bool", b(all_unk)))
     L.append(("zone_eq_has_unknown_arm", "bool", b(zone_unk)))
+    L.append(("opt_push_counts_header", "bool", b(push_hdr)))
     return L
 
 
